@@ -120,6 +120,20 @@ def r05_4_5(ctx: Ctx):
                ('minimize', 'minimize_scalar', 'differential_evolution', 'basinhopping', 'dual_annealing', 'shgo',
                 'brute', 'fmin', 'fmin_powell', 'fmin_bfgs', 'fmin_cg', 'least_squares') for d in names):
             opt_sites.append((caller, nid))
+    ctx.rule('R05.7', 'never worse: the refinement adopts the result of an optimiser only if that optimiser starts from '
+                      'the best trial and returns its best evaluated point (scipy.optimize.minimize with a simplex / '
+                      'descent method, wired by R05.5); optimisers that never evaluate the start point '
+                      '(minimize_scalar, global methods) carry no such guarantee')
+    for caller, nid in opt_sites:
+        f = ctx.ix.funcs.get(caller)
+        names = ctx.pta.ext_calls.get((caller, nid), set())
+        if f is not None and (f is rf or roles.lift(f) is rf) and \
+                not any(d == 'scipy.optimize.minimize' for d in names):
+            node = ctx.pta.call_nodes.get((caller, nid))
+            ctx.fail('R05.7', f.short, f.loc(node) if node is not None else f.loc(),
+                     f'the refinement adopts the result of {sorted(names)[0]}, which does not evaluate the best '
+                     f'global-phase trial and need not return a point at least as good: the refined value can be worse '
+                     f'than the best trial of the global phase', key=f'R05.7::{f.short}::{sorted(names)[0]}')
     for caller, nid in opt_sites:
         f = ctx.ix.funcs.get(caller)
         if f is not rf and not (f is not None and roles.lift(f) is rf):
